@@ -23,6 +23,8 @@ type scenario struct {
 	files   map[string]string
 	opts    func(root, out string) api.BuildOptions
 	edit    map[string]string // path -> new contents ("" = delete)
+	links   map[string]string // symlinks of the initial tree: path -> target
+	relink  map[string]string // symlinks replaced by the edit
 	watch   bool
 	comment string
 }
@@ -101,6 +103,20 @@ func knownScenarios() []scenario {
 			watch:   true,
 			comment: "realFS.ReadFile on a path that ReadDirectory recorded replaces the directory's watch record by stateFileMissing",
 		},
+		{
+			name: "watch-symlink-retargeted",
+			what: "known-G-watch-misses-symlink-retarget",
+			files: map[string]string{
+				"src/a.js": "import \"./link\";\n",
+				"src/x.js": "console.log(\"x\");\n",
+				"src/y.js": "console.log(\"y\");\n",
+			},
+			links:   map[string]string{"src/link.js": "x.js"},
+			opts:    base("src/a.js"),
+			relink:  map[string]string{"src/link.js": "y.js"},
+			watch:   true,
+			comment: "the target of a symlink is obtained by Entry.Symlink (lstat + EvalSymlinks) which leaves no watch record; the directory entry stays present and the old target stays unchanged",
+		},
 	}
 }
 
@@ -115,6 +131,9 @@ func streamKnown(seed uint64, tmp string) *Stats {
 			root = rp
 		}
 		writeTree(root, sc.files, old)
+		for p, t := range sc.links {
+			must(os.Symlink(t, filepath.Join(root, filepath.FromSlash(p))))
+		}
 		opts := sc.opts(root, filepath.Join(dir, "out"))
 		ctx, cerr := api.Context(opts)
 		if cerr != nil {
@@ -126,6 +145,11 @@ func streamKnown(seed uint64, tmp string) *Stats {
 		first, _ := canon(ctx.Rebuild())
 		fresh0, _ := canon(api.Build(opts))
 		writeTree(root, sc.edit, old.Add(time.Hour))
+		for p, t := range sc.relink {
+			abs := filepath.Join(root, filepath.FromSlash(p))
+			must(os.Remove(abs))
+			must(os.Symlink(t, abs))
+		}
 		var dirty []string
 		if sc.watch {
 			dirty = api.VerifDirtyPaths(ctx)
@@ -134,7 +158,7 @@ func streamKnown(seed uint64, tmp string) *Stats {
 		fr, frc := canon(api.Build(opts))
 		ctx.Dispose()
 		os.RemoveAll(dir)
-		in := map[string]interface{}{"scenario": sc.name, "files": sc.files, "edit": sc.edit, "entry_points": opts.EntryPoints, "metafile": opts.Metafile, "mechanism": sc.comment}
+		in := map[string]interface{}{"scenario": sc.name, "files": sc.files, "edit": sc.edit, "symlinks": sc.links, "symlinks_after_edit": sc.relink, "entry_points": opts.EntryPoints, "metafile": opts.Metafile, "mechanism": sc.comment}
 		st.Note("known-scenario", sc.name, true)
 		if first != fresh0 {
 			st.Fail(whatRebuild, in, "first build on the context differs from api.Build", "equal")
